@@ -86,6 +86,9 @@ func goValue(v interface{}) enc.M {
 
 func sp(s string) *string { return &s }
 
+// namedStr is a named string type (the shape generated code uses for enumerations): of kind string, like string itself
+type namedStr string
+
 var helperValues = func() []interface{} {
 	var nilPtr *int
 	var nilSlice []int
@@ -228,8 +231,8 @@ func driveHelpers(args []string) error {
 		}
 	}
 	// Pattern
-	for _, p := range []string{"^a", "b$", "é", "^.$", "(", "[a-", "a{2,1}", "", "x*"} {
-		for _, s := range []string{"", "a", "ab", "é", "b", "xa", "\xff"} {
+	for _, p := range []string{"^a", "b$", "é", "^.$", "(", "[a-", "a{2,1}", "", "x*", "ab", "\xff", "caf\xc3", "\uFFFD", "a.b", "a b"} {
+		for _, s := range []string{"", "a", "ab", "é", "b", "xa", "\xff", "a\xffb", "caf\xc3\xa9", "caf\xc3", "\uFFFD", "a.b", "axb", "a b"} {
 			p, s := p, s
 			if err := emit("Pattern", enc.M{"fact": rexpFact(p, s)}, enc.M{"pattern": p, "string": fmt.Sprintf("%q", s)}, func() bool { return validate.Pattern("p", "q", s, p) != nil }, func() string { return p + s }); err != nil {
 				return err
@@ -308,6 +311,23 @@ func driveHelpers(args []string) error {
 					if err := emit("EnumCase", enc.M{"data": goValue(d), "enum": encList, "cs": cs}, in2, func() bool { return validate.EnumCase("p", "q", d, enumList, cs) != nil }, func() string { return repr(d) + repr(enumList) }); err != nil {
 						return err
 					}
+				}
+			}
+		}
+	}
+	// EnumCase with named string types on either side (kind string: the comparison is the one of plain strings)
+	for _, d := range []interface{}{namedStr("Ab"), namedStr("ab"), "AB", "ab", namedStr("")} {
+		for _, enumList := range [][]interface{}{{namedStr("ab")}, {"ab"}, {namedStr("AB"), "x"}, {"x", namedStr("aB")}, {namedStr("")}} {
+			d, enumList := d, enumList
+			encList := make([]interface{}, len(enumList))
+			for q := range enumList {
+				encList[q] = goValue(enumList[q])
+			}
+			for _, cs := range []bool{true, false} {
+				cs := cs
+				in2 := enc.M{"data": repr(d), "enum": repr(enumList), "caseSensitive": cs}
+				if err := emit("EnumCase", enc.M{"data": goValue(d), "enum": encList, "cs": cs}, in2, func() bool { return validate.EnumCase("p", "q", d, enumList, cs) != nil }, func() string { return repr(d) + repr(enumList) + fmt.Sprint(cs) }); err != nil {
+					return err
 				}
 			}
 		}
